@@ -15,6 +15,14 @@ impl<T: Default + Copy> Vec<T> {
 impl<T: Default + Copy> Default for Vec<T> { fn default() -> Self { Vec::new() } }
 impl<T> std::ops::Deref for Vec<T> { type Target = [T]; fn deref(&self) -> &[T] { &self.items[..self.n] } }
 impl<T> AsRef<[T]> for Vec<T> { fn as_ref(&self) -> &[T] { &self.items[..self.n] } }
+impl<T: Copy + Ord> Vec<T> {
+    /// insertion sort (inherent, so it takes precedence over the slice's pattern-defeating quicksort, which CBMC cannot get through)
+    pub fn sort_unstable(&mut self) { let mut i = 1; while i < self.n { let mut j = i; while j > 0 && self.items[j - 1] > self.items[j] { self.items.swap(j - 1, j); j -= 1; } i += 1; } }
+    pub fn sort(&mut self) { self.sort_unstable() }
+}
+impl<T> std::ops::DerefMut for Vec<T> { fn deref_mut(&mut self) -> &mut [T] { &mut self.items[..self.n] } }
+impl<T: Default + Copy> FromIterator<T> for Vec<T> { fn from_iter<I: IntoIterator<Item = T>>(it: I) -> Self { let mut v = Vec::new(); for x in it { v.push(x); } v } }
+impl<'a, T> IntoIterator for &'a Vec<T> { type Item = &'a T; type IntoIter = std::slice::Iter<'a, T>; fn into_iter(self) -> std::slice::Iter<'a, T> { self.items[..self.n].iter() } }
 pub struct VecIntoIter<T> { v: Vec<T>, i: usize }
 impl<T: Copy> Iterator for VecIntoIter<T> { type Item = T; fn next(&mut self) -> Option<T> { if self.i < self.v.n { let r = self.v.items[self.i]; self.i += 1; Some(r) } else { None } } }
 impl<T: Copy> IntoIterator for Vec<T> { type Item = T; type IntoIter = VecIntoIter<T>; fn into_iter(self) -> VecIntoIter<T> { VecIntoIter { v: self, i: 0 } } }
@@ -51,6 +59,17 @@ impl<K: Copy + Default + Ord, V: Copy + Default> IndexMap<K, V> {
     pub fn sort_unstable_keys(&mut self) { let mut i = 1; while i < self.n { let mut j = i; while j > 0 && self.ks[j - 1] > self.ks[j] { self.ks.swap(j - 1, j); self.vs.swap(j - 1, j); j -= 1; } i += 1; } }
     pub fn keys(&self) -> std::slice::Iter<'_, K> { self.ks[..self.n].iter() }
     pub fn len(&self) -> usize { self.n }
+    pub fn is_empty(&self) -> bool { self.n == 0 }
+    pub fn get(&self, k: &K) -> Option<&V> { match self.find(k) { Some(i) => Some(&self.vs[i]), None => None } }
+    pub fn get_mut(&mut self, k: &K) -> Option<&mut V> { match self.find(k) { Some(i) => Some(&mut self.vs[i]), None => None } }
+    pub fn contains_key(&self, k: &K) -> bool { self.find(k).is_some() }
+    pub fn values(&self) -> std::slice::Iter<'_, V> { self.vs[..self.n].iter() }
+    pub fn iter(&self) -> MapIter<'_, K, V> { MapIter { m: self, i: 0 } }
+}
+impl<K: Copy + Default + Ord, V: Copy + Default> std::ops::Index<&K> for IndexMap<K, V> { type Output = V; fn index(&self, k: &K) -> &V { self.get(k).expect("IndexMap: key not found") } }
+impl<K: Copy + Default + Ord, V: Copy + Default> FromIterator<(K, V)> for IndexMap<K, V> { fn from_iter<I: IntoIterator<Item = (K, V)>>(it: I) -> Self { let mut m = IndexMap::new(); for (k, v) in it { m.insert(k, v); } m } }
+impl<'a, K: Copy + Default + Ord, V: Copy + Default> Entry<'a, K, V> {
+    pub fn and_modify<F: FnOnce(&mut V)>(self, f: F) -> Self { if let Some(i) = self.m.find(&self.k) { f(&mut self.m.vs[i]); } self }
 }
 impl<'a, K: Copy + Default + Ord, V: Copy + Default> Entry<'a, K, V> {
     pub fn or_insert(self, v: V) -> &'a mut V { let i = match self.m.find(&self.k) { Some(i) => i, None => { assert!(self.m.n < CAP, "map capacity"); let i = self.m.n; self.m.ks[i] = self.k; self.m.vs[i] = v; self.m.n += 1; i } }; &mut self.m.vs[i] }
